@@ -249,3 +249,98 @@ func VerifC17_HeaderAddList() {
 	}
 	verif.Cover("end")
 }
+
+// VerifC17_HostRewrite (router half): a route with host_rewrite, or with
+// auto_host_rewrite_header naming a request header, leaves the upstream
+// authority it asks for in the protocol-independent host variable (host_rewrite
+// wins when both are configured); a route with neither leaves the variable
+// as it was. The HTTP/1 half (what ends up in the Host header) is
+// VerifC17_HostHeader in pkg/stream/http.
+func VerifC17_HostRewrite() {
+	hr := []string{"", "new.host"}[verif.Choose("host_rewrite", 2)]
+	hh := []string{"", "x-target"}[verif.Choose("auto_host_rewrite_header", 2)]
+	hasHdr := verif.Choose("request_has_header", 2) == 1
+	r := v2.Router{}
+	r.Match.Prefix = "/"
+	r.Route.ClusterName = "c"
+	r.Route.HostRewrite = hr
+	r.Route.AutoHostRewriteHeader = hh
+	cfg := &v2.RouterConfiguration{VirtualHosts: []v2.VirtualHost{{Name: "vh", Domains: []string{"*"}, Routers: []v2.Router{r}}}}
+	rs, err := NewRouters(cfg)
+	verif.Assume(err == nil)
+	ctx := variable.NewVariableContext(context.Background())
+	variable.SetString(ctx, types.VarPath, "/p")
+	variable.SetString(ctx, types.VarHost, "old.host")
+	headers := protocol.CommonHeader{}
+	if hasHdr {
+		headers["x-target"] = "hdr.host"
+	}
+	route := rs.MatchRoute(ctx, headers)
+	verif.Assert(route != nil, "the catch-all route must match")
+	if route == nil {
+		return
+	}
+	route.RouteRule().FinalizeRequestHeaders(ctx, headers, nil)
+	got, gerr := variable.GetString(ctx, types.VarIstioHeaderHost)
+	want := ""
+	switch {
+	case hr != "":
+		want = hr
+	case hh != "" && hasHdr:
+		want = "hdr.host"
+	}
+	if want == "" {
+		verif.Assert(gerr != nil || got == "", "a route without host rewrite set an upstream authority")
+	} else {
+		verif.Assert(gerr == nil && got == want, "the route's host rewrite did not reach the upstream authority variable")
+	}
+	h, _ := variable.GetString(ctx, types.VarHost)
+	verif.Assert(h == "old.host", "host rewrite must not alter the request's own host variable")
+	verif.Cover("end")
+}
+
+// VerifC17_RegexRewrite: a route with regex_rewrite ("^/a/(.*)$" -> "/b/$1")
+// on paths from a catalogue around the pattern: a matching path is rewritten
+// to the substitution with the captured rest and the original path is
+// recorded; any other path is left alone and nothing is recorded. With a
+// prefix_rewrite configured as well, the prefix rewrite is the one applied.
+func VerifC17_RegexRewrite() {
+	alsoPrefix := verif.Choose("prefix_rewrite_too", 2) == 1
+	r := v2.Router{}
+	r.Match.Prefix = "/"
+	r.Route.ClusterName = "c"
+	r.Route.RegexRewrite = &v2.RegexRewrite{Pattern: v2.PatternConfig{Regex: "^/a/(.*)$"}, Substitution: "/b/$1"}
+	if alsoPrefix {
+		r.Route.PrefixRewrite = "/z/"
+	}
+	cfg := &v2.RouterConfiguration{VirtualHosts: []v2.VirtualHost{{Name: "vh", Domains: []string{"*"}, Routers: []v2.Router{r}}}}
+	rs, err := NewRouters(cfg)
+	verif.Assume(err == nil)
+	paths := []string{"/a/x", "/a/", "/a", "/b/x", "/x/a/y", "/a/x/y"}
+	path := paths[verif.Choose("path", len(paths))]
+	ctx := variable.NewVariableContext(context.Background())
+	variable.SetString(ctx, types.VarPath, path)
+	headers := protocol.CommonHeader{}
+	route := rs.MatchRoute(ctx, headers)
+	verif.Assert(route != nil, "the catch-all route must match")
+	if route == nil {
+		return
+	}
+	route.RouteRule().FinalizeRequestHeaders(ctx, headers, nil)
+	got, _ := variable.GetString(ctx, types.VarPath)
+	want := path
+	switch {
+	case alsoPrefix:
+		want = "/z/" + path[1:]
+	case len(path) >= 3 && path[:3] == "/a/":
+		want = "/b/" + path[3:]
+	}
+	verif.Assert(got == want, "the path sent upstream is not the configured rewrite of the request path")
+	orig, ok := headers.Get(types.HeaderOriginalPath)
+	if want != path {
+		verif.Assert(ok && orig == path, "a rewritten request must record its original path")
+	} else {
+		verif.Assert(!ok, "an untouched path must not be recorded as rewritten")
+	}
+	verif.Cover("end")
+}
